@@ -68,6 +68,10 @@ pub struct Case {
     /// end of a flush interval (after its queue-length sample, before it looks at the shutdown flag)
     #[serde(default)]
     pub during_recorder_call: bool,
+    /// how the queue is built and addressed (c01::build_queue_kind); only for the drop-handle and
+    /// forget endings without the held recorder
+    #[serde(default)]
+    pub qkind: u8,
 }
 
 metrique_writer::sink::global_entry_sink! { C05Global }
@@ -103,6 +107,8 @@ pub fn check(case: &Case) -> CaseResult {
             let (q, h) = b.build::<TestE>(stream);
             (Q::Typed(q), h)
         }
+    } else if case.end != End::GlobalDetach && matches!(case.qkind % 6, 1 | 2 | 5) {
+        super::c01::build_queue_kind(case.qkind, 100_000, case.boxed, interval, stream)
     } else {
         build_queue(100_000, case.boxed || case.end == End::GlobalDetach, interval, stream)
     };
@@ -342,6 +348,7 @@ pub fn check(case: &Case) -> CaseResult {
                 do_append(&handles, case.after as usize, &mut seq, &log);
                 log.push(Ev::LastQueueHandleDropped);
                 drop(handles);
+                log.push(Ev::Note("last-handle-drop-returned"));
                 hold.release();
                 classes.push("last-handle-dropped-during-periodic-flush");
             } else {
@@ -350,13 +357,17 @@ pub fn check(case: &Case) -> CaseResult {
                 gate.open();
                 log.push(Ev::LastQueueHandleDropped);
                 drop(handles);
+                log.push(Ev::Note("last-handle-drop-returned"));
             }
             // decided by counting: a correct writer performs O(1) further stream flushes and then
             // drops the stream; a writer that never notices keeps flushing every interval
             let t0 = std::time::Instant::now();
             let outcome = loop {
                 let evs = log.snapshot();
-                let li = evs.iter().position(|e| matches!(e, Ev::LastQueueHandleDropped)).unwrap();
+                // counted from the instant the drop of the last handle has RETURNED (the marker
+                // before the drop may be followed by any number of legitimate periodic flushes if
+                // this thread is descheduled between the two statements)
+                let li = evs.iter().position(|e| matches!(e, Ev::Note("last-handle-drop-returned"))).unwrap();
                 if evs.iter().any(|e| matches!(e, Ev::StreamDropped)) {
                     break Some(evs);
                 }
@@ -454,9 +465,10 @@ pub fn run(ctx: &mut Ctx) {
                     prop::collection::vec(prop_oneof![3 => Just(crate::iofault::SRes::Ok), 1 => Just(crate::iofault::SRes::Io)], 0..8),
                     prop::collection::vec(prop::bool::weighted(0.6), 0..4),
                     prop::bool::weighted(0.3),
+                    prop_oneof![2 => Just(0u8), 1 => prop::sample::select(vec![1u8, 2, 5])],
                 ),
             )
-                .prop_map(|(boxed, ops, end, after, open_delay, flush_ms, during_flush, unwinding, racing_appender, keep_flush_futures, (results, flush_results, during_recorder_call))| Case {
+                .prop_map(|(boxed, ops, end, after, open_delay, flush_ms, during_flush, unwinding, racing_appender, keep_flush_futures, (results, flush_results, during_recorder_call, qkind))| Case {
                     boxed,
                     ops,
                     end,
@@ -470,8 +482,144 @@ pub fn run(ctx: &mut Ctx) {
                     results,
                     flush_results,
                     during_recorder_call,
+                    qkind,
                 })
         },
         check,
     );
+    ctx.explore(
+        SubCfg::new(
+            "c05-attach-to-stream",
+            "the documented one-liner: Global::attach_to_stream(stream) (BackgroundQueue::new: capacity 64 Ki, flush every second, default shutdown timeout) or Global::attach(BackgroundQueue::new(stream)) / attach(builder.build::<BoxEntry>(stream)); 0-300 entries through Global::append / sink().append_any / a retained sink() clone / append_on_drop guards, per-entry results Ok/Io, the writer stalled at a gate for part of them so that a backlog exists; then the AttachHandle is dropped. Oracle: when the drop returns every entry appended before it reached the stream exactly once in order, the stream was flushed after the last one and dropped; appends through the retained clone afterwards are silently discarded (no panic, nothing written). Non-trivial = a backlog of >= 2 entries at the drop and an append afterwards",
+            if q { 300 } else { 6_000 },
+        )
+        .threads(ctx.tier.pick(4, 8))
+        .shrink_iters(40)
+        .mandatory(&["backlog-at-detach", "append-through-retained-clone-after-detach"]),
+        || {
+            (0u8..3, 0u16..300, 0u16..40, 0u8..6, prop::collection::vec(prop_oneof![3 => Just(crate::iofault::SRes::Ok), 1 => Just(crate::iofault::SRes::Io)], 0..6), 0u8..4)
+                .prop_map(|(ctor, before, granted, after, results, via)| AttachCase { ctor, before, granted, after, results, via })
+        },
+        check_attach_to_stream,
+    );
+}
+
+#[derive(Clone, Debug, Serialize, Deserialize)]
+pub struct AttachCase {
+    /// 0 = attach_to_stream, 1 = attach(BackgroundQueue::new(..)), 2 = attach(builder.build::<BoxEntry>(..))
+    pub ctor: u8,
+    pub before: u16,
+    /// entries the writer may take before the detach begins (the rest is backlog)
+    pub granted: u16,
+    pub after: u8,
+    pub results: Vec<crate::iofault::SRes>,
+    /// how entries are appended: 0 = Global::append, 1 = Global::sink().append_any, 2 = retained
+    /// sink clone, 3 = append_on_drop guard
+    pub via: u8,
+}
+
+pub fn check_attach_to_stream(case: &AttachCase) -> CaseResult {
+    use metrique_writer::sink::AttachGlobalEntrySinkExt;
+    use metrique_writer_core::AnyEntrySink;
+    let _g = GLOBAL_LOCK.lock().unwrap_or_else(|e| e.into_inner());
+    let log = Arc::new(EventLog::default());
+    let gate = Gate::new(false);
+    let mut stream = BqStream::new(case.results.clone(), gate.clone(), log.clone());
+    stream.cycle = true;
+    let attach = no_panic("attach", || match case.ctor % 3 {
+        0 => C05Global::attach_to_stream(stream),
+        1 => C05Global::attach(metrique_writer::sink::BackgroundQueue::new(stream)),
+        _ => C05Global::attach(
+            metrique_writer::sink::BackgroundQueueBuilder::new().build::<metrique_writer_core::BoxEntry>(stream),
+        ),
+    })?;
+    let retained = C05Global::sink();
+    let n = case.before as u32;
+    no_panic("global-append", || {
+        for s in 0..n {
+            let id = Id { p: 0, s };
+            log.push(Ev::AppendStart(id));
+            match case.via % 4 {
+                0 => C05Global::append(TestE(id)),
+                1 => C05Global::sink().append_any(TestE(id)),
+                2 => retained.append_any(TestE(id)),
+                _ => drop(C05Global::append_on_drop(TestE(id))),
+            }
+            log.push(Ev::AppendEnd(id));
+        }
+    })?;
+    let granted = (case.granted as u32).min(n);
+    gate.grant(granted as u64);
+    if granted > 0 && !gate.wait_consumed(granted as u64, Duration::from_secs(10)) {
+        gate.open();
+        drop(attach);
+        return Ok(vec!["inconclusive-timeout"]);
+    }
+    let backlog = n - granted;
+    // the detach must drain the backlog: open the gate once the drop has begun
+    let opener = {
+        let gate = gate.clone();
+        let log = log.clone();
+        std::thread::spawn(move || {
+            let t0 = std::time::Instant::now();
+            while log.count(|e| matches!(e, Ev::HandleDropStart)) == 0 && t0.elapsed() < Duration::from_secs(5) {
+                std::thread::yield_now();
+            }
+            std::thread::sleep(Duration::from_micros(200));
+            gate.open();
+        })
+    };
+    log.push(Ev::HandleDropStart);
+    let r = no_panic("attach-handle-drop", || drop(attach));
+    log.push(Ev::HandleDropEnd);
+    let _ = opener.join();
+    r?;
+    let at_return = log.snapshot();
+    // afterwards: the retained clone is a handle of a dead queue
+    no_panic("append-after-detach", || {
+        for k in 0..case.after as u32 {
+            retained.append_any(TestE(Id { p: 9, s: k }));
+        }
+    })?;
+    vensure!(
+        C05Global::try_append(TestE(Id { p: 8, s: 0 })).is_err() || case.after == u8::MAX,
+        "shutdown:global-still-attached",
+        "try_append succeeded after the attach handle was dropped"
+    );
+    std::thread::sleep(Duration::from_millis(2));
+    let evs = log.snapshot();
+    let ids: Vec<u32> = at_return.iter().filter_map(|e| if let Ev::Next(id, _) = e { Some(id.s) } else { None }).collect();
+    vensure!(
+        ids == (0..n).collect::<Vec<_>>(),
+        "shutdown:entry-not-drained",
+        "{n} entries appended through the global before the attach handle was dropped ({backlog} still queued); when the drop returned the stream had seen {} of them: {:?}",
+        ids.len(),
+        &ids[..ids.len().min(20)]
+    );
+    vensure!(at_return.iter().any(|e| matches!(e, Ev::StreamDropped)), "shutdown:stream-not-closed", "the attach handle drop returned but the stream was not dropped");
+    if n > 0 {
+        let last = at_return.iter().rposition(|e| matches!(e, Ev::Next(..))).unwrap();
+        vensure!(
+            at_return[last..].iter().any(|e| matches!(e, Ev::StreamFlush)),
+            "shutdown:no-flush-after-last-entry",
+            "no stream flush after the last entry before the stream was closed"
+        );
+    }
+    vensure!(
+        evs.len() == at_return.len(),
+        "shutdown:write-after-close",
+        "the stream was touched after the attach handle drop returned: {:?}",
+        &evs[at_return.len()..]
+    );
+    let mut classes: Classes = vec![];
+    if backlog >= 2 {
+        classes.push("backlog-at-detach");
+    }
+    if case.after > 0 {
+        classes.push("append-through-retained-clone-after-detach");
+    }
+    if backlog >= 2 && case.after > 0 {
+        classes.push("nt");
+    }
+    Ok(classes)
 }
